@@ -14,6 +14,7 @@ type Param struct {
 
 // Dir is a node of the directive tree that is rendered to text.
 type Dir struct {
+	ID       int // stable identity across transformations (assigned by Number)
 	Kw       string
 	Params   []Param
 	Annot    string
@@ -347,5 +348,34 @@ func BuildTree(doc *Doc, o TreeOpts) []*Dir {
 			}
 		}
 	}
+	Number(root)
 	return root
+}
+
+// Number assigns stable IDs (pre-order) to the directives of a freshly built tree.
+func Number(dirs []*Dir) {
+	n := 0
+	Walk(dirs, func(d *Dir, _ *Dir) {
+		n++
+		d.ID = n
+	})
+}
+
+// clone copies a directive (children slice copied, children themselves shared until cloned by the caller).
+func (d *Dir) clone() *Dir {
+	c := *d
+	c.Children = append([]*Dir(nil), d.Children...)
+	return &c
+}
+
+// CloneTree deep-copies a tree (IDs are kept).
+func CloneTree(dirs []*Dir) []*Dir {
+	out := make([]*Dir, len(dirs))
+	for i, d := range dirs {
+		c := *d
+		c.Children = CloneTree(d.Children)
+		c.IncludeDirs = CloneTree(d.IncludeDirs)
+		out[i] = &c
+	}
+	return out
 }
